@@ -1,5 +1,6 @@
 import VModel.Spec
 import VModel.Filters
+import VModel.PredictorSer
 import Driver.ModelParse
 /-! Line-protocol handler for sentence histories (`S op,op,…`).  See DESIGN.md §4.3. -/
 namespace V.Drv
@@ -153,8 +154,10 @@ def buildPred (cfg : Cfg) (spec : String) : Option (WModel × Res Predictor) :=
     let f := flags.toList
     let pt := f[0]? == some '1'
     let st := f[1]? == some '1'
-    -- a trailing `s` (serialize -> deserialize round trip) is the identity on the model's predictor (C14)
-    pure (m, (Predictor.new cfg m pt).map fun p => { p with storeTagScores := st })
+    -- a trailing `s…` replaces the predictor by its serialize -> deserialize round trip (C14)
+    let ser := f[2]? == some 's'
+    pure (m, (Predictor.new cfg m pt).map fun p =>
+      { (if ser then p.reser cfg else p) with storeTagScores := st })
   | _ => none
 
 def runH (cfgS preds ops : String) : String :=
@@ -201,5 +204,23 @@ def runF (cfgS mS ptS h : String) : String :=
     | .err _ => "err:invalid_model"
     | _ => "panic"
   | _, _ => "bad-case"
+
+end V.Drv
+
+namespace V.Drv
+open V.Bin
+
+/-- `E <hex bytes> …`: the outer record of a serialised predictor, decoded from real bytes -/
+def runE (h : String) : String :=
+  match hexToBytes? h.toList with
+  | none => "bad-case"
+  | some bs =>
+    match decEnvelope bs with
+    | .ok (e, rest) =>
+      let tp := match e.tagPredictor with | some l => toString l.length | none => "-"
+      let reenc := if encEnvelope e ++ rest = bs then "same" else "DIFFERENT"
+      s!"ok rest={rest.length} bias={e.bias} ntags={e.nTags} tp={tp} reencode={reenc}"
+    | .err x => "err:" ++ x.toString
+    | _ => "panic"
 
 end V.Drv
